@@ -298,6 +298,8 @@ Dump == PrintT(ToJson([fa |-> act.name, act |-> act', fabs |-> Abs, fhid |-> Hid
 View == <<status, ent, hashed, hashIds, sincePub, fl, quiet, events, fails, slow, fired>>
 
 \* constant values for the configurations
+Addr1 == [a1 |-> "A"]
+GapsJitter1 == [a1 |-> {3, 4}]
 Addr2 == [a1 |-> "A", b1 |-> "B"]
 Addr3 == [a1 |-> "A", b1 |-> "B", c1 |-> "C"]
 AddrRestart == [a1 |-> "A", a2 |-> "A", b1 |-> "B"]
